@@ -79,6 +79,26 @@ def make_case(rng):
     return {'src': src, 'opts': {'pack': '*', 'lang': rng.choice(['', 'de'])}, 'multi': False, 'kind': 'flow',
             'words': words, 'rels': rels, 'seps': seps}
 
+def make_detached_case(rng):
+    """the same word sequences inside a flow that is detached from the main text: the argument of \\footnote,
+    \\footnotetext, \\caption, or of a macro named in the extraction list"""
+    c = make_case(rng)
+    names = gen.Names(rng)
+    a, b = names.word(), names.word()
+    body = c['src'].strip('\n') if rng.random() < 0.5 else c['src']
+    k = rng.randrange(4)
+    if k == 0:
+        c['src'] = a + '\\footnote{' + body + '} ' + b
+    elif k == 1:
+        c['src'] = a + ' \\footnotetext{' + body + '} ' + b
+    elif k == 2:
+        c['src'] = a + '\n\\begin{figure}\n\\caption{' + body + '}\n\\end{figure}\n' + b
+    else:
+        c['src'] = a + ' \\zzextr{' + body + '} ' + b
+        c['opts'] = dict(c['opts'], extr='zzextr')
+    c['kind'] = 'flow-detached'
+    return c
+
 def make_arg_case(rng):
     """words inside the argument of a macro that passes its argument on, with the closing brace on a line of its own"""
     names = gen.Names(rng)
@@ -186,6 +206,7 @@ def run(ctx):
     rng = ctx.rng
     cases = [make_case(rng) for _ in range(n)]
     cases += [make_arg_case(rng) for _ in range(max(100, n // 15))]
+    cases += [make_detached_case(rng) for _ in range(max(600, n // 5))]
     ctx.stats['_rule'] = ('sequences of unique words separated by random layouts of blanks, tabs, line breaks, blank lines, comment lines, '
                           'vanishing constructs (labels, index entries, unknown macros, skipped regions); expected relation glued / same paragraph / '
                           'blank line computed by reading the separator as TeX does; non-trivial = at least one vanishing construct or comment')
